@@ -1,6 +1,7 @@
 package seqio
 
 import (
+	"bytes"
 	"io"
 
 	"github.com/go-gts/gts"
@@ -18,11 +19,12 @@ type Scanner struct {
 	s   *pars.State
 	res pars.Result
 	err error
+	end bool
 }
 
 // NewScanner creates a new sequence scanner.
 func NewScanner(p pars.Parser, r io.Reader) *Scanner {
-	return &Scanner{p, pars.NewState(r), pars.Result{}, nil}
+	return &Scanner{p, pars.NewState(r), pars.Result{}, nil, false}
 }
 
 // NewAutoScanner creates a new sequence scanner which will automatically
@@ -34,7 +36,14 @@ func NewAutoScanner(r io.Reader) *Scanner {
 // Scan advances the scanner using the given parser. If the parser is not yet
 // specified, the first scan will match one of the known parsers.
 func (s *Scanner) Scan() bool {
-	if s.err != nil {
+	if s.err != nil || s.end {
+		return false
+	}
+
+	// The input ends cleanly only between records: decide that before a parser
+	// runs, not from the way it fails.
+	if s.exhausted() {
+		s.end = true
 		return false
 	}
 
@@ -78,10 +87,22 @@ func (s Scanner) Value() gts.Sequence {
 	return nil
 }
 
-// Err returns the first non-EOF error that was encountered by the scanner.
-func (s Scanner) Err() error {
-	if s.err == nil || dig(s.err) == io.EOF {
-		return nil
+// exhausted tests if there is nothing but white space left in the input.
+func (s *Scanner) exhausted() bool {
+	for n := 1; ; n *= 2 {
+		if err := s.s.Request(n); err != nil {
+			// Everything that is left of the input is in the buffer now.
+			return len(bytes.TrimSpace(s.s.Buffer())) == 0
+		}
+		if len(bytes.TrimSpace(s.s.Buffer())) != 0 {
+			return false
+		}
 	}
+}
+
+// Err returns the first error that was encountered by the scanner. Reaching
+// the end of the input between records is not an error; reaching it in the
+// middle of a record is.
+func (s Scanner) Err() error {
 	return s.err
 }
